@@ -612,7 +612,7 @@ class C07(Prop):
             if not _inp(b.w, repo_b):
                 v = check_blame(b, repo_b, ex.sessions, one_sided=True, gitai=False)
                 if not v and ex.gen_state.get("golden_note_ok") and state_b["HEAD"] != ref["pre_b"]["HEAD"]:
-                    v = check_commit_note(b, repo_b, state_b["HEAD"], ex.sessions, two_sided=False)
+                    v = check_commit_note(b, repo_b, state_b["HEAD"], ex.sessions, two_sided=False, unadded_true_ok=True)
                 if v:
                     v["monitor"] = "fault.outcome"
                     v["class"] = "attribution_invented_after_fault_" + v["class"]
